@@ -841,16 +841,22 @@ def quantize(a, q):
 class _Args:
     """the representation chosen for every argument of the case; falls back to float64 when the values do not allow it"""
 
-    def __init__(self, kinds):
+    def __init__(self, kinds, classes=None):
         self.kinds = dict(kinds)
         self.used = {}
+        self.classes = classes
+
+    def _note(self, name, k):
+        self.used[name] = k
+        if self.classes is not None:
+            self.classes.append("args:%s=%s" % (name, k))
 
     def arr(self, name, a):
         k = self.kinds.get(name, "f64")
         obj = as_rep(a, k)
         if obj is None:
             k, obj = "f64", np.array(np.asarray(a, dtype=np.float64))
-        self.used[name] = k
+        self._note(name, k)
         return obj
 
     def scalar(self, name, x):
@@ -858,18 +864,13 @@ class _Args:
         obj = as_scalar_rep(x, k)
         if obj is None:
             k, obj = "float", float(x)
-        self.used[name] = k
+        self._note(name, k)
         return obj
 
     def faces(self, name, F):
         k = self.kinds.get(name, "int64")
-        self.used[name] = k
+        self._note(name, k)
         return as_face_rep(F, k)
-
-    def label(self):
-        plain = {"f64", "float", "int64:faces"}
-        out = [f"{n}={k}" for n, k in sorted(self.used.items()) if k not in plain and not (n == "faces" and k == "int64")]
-        return ",".join(out) if out else "plain"
 
 
 def _run_args(case, kinds, ctx_classes=None):
@@ -903,7 +904,7 @@ def _run_args(case, kinds, ctx_classes=None):
         c = shift + np.asarray(case["cm"], dtype=np.float64) * scale
     c = quantize(c, q)
     d = float(quantize(case["density"], q if q != "f16" else "f32"))
-    A = _Args(kinds)
+    A = _Args(kinds, ctx_classes)
     U = underflow_floor(T, (d, 1), (c, 2), (frame[:3, 3], 2))
     Vx, tV = model.V, model.tV
     P = "C03.args|"
@@ -989,7 +990,6 @@ def _run_args(case, kinds, ctx_classes=None):
         got = call(P + "transform_inertia|parallel_axis", lambda: tm_inertia.transform_inertia(f_obj, x_obj, parallel_axis=True, mass=A.scalar("mass", mval)))
         cmp(got, want, tolP, P + "transform_inertia|parallel_axis", "transform_inertia(parallel_axis=True) vs R^T (I + m M(t)) R")
     if ctx_classes is not None:
-        ctx_classes.extend("args:%s=%s" % (n, k) for n, k in A.used.items())
         ctx_classes.append("args:quant:" + q)
         ctx_classes.append("args:cond:" + ("well" if model.wellcond else "volume_below_1000tol"))
         if model.wellcond and A.used.get("frame") in ("int64", "int32", "intlist") and (model.cm != np.round(model.cm)).any():
